@@ -98,3 +98,40 @@ class line_width:
         yield "columns-of-all-segments-but-a-leading-shift", result == spec_line_width(a.segs)
 
     loops = {0: Loop(invariant=lambda v: v.sc == colsum(v.seglist, v.i_))}
+
+
+def same_from(res, k1, src, k0, callee=False):
+    """res[k1:] == src[k0:] (same length, same segments in the same order).  As a proof goal: for an ARBITRARY index
+    (universal generalisation, quantifier-free); as a fact at a call site: the quantified statement."""
+    n = n_segs(src) - k0
+    if not V._current:
+        return list(res[k1:]) == list(src[k0:])
+    if callee:
+        return both(n_segs(res) - k1 == n, forall(0, n, lambda j: V.struct_eq(seg_at(res, k1 + j), seg_at(src, k0 + j)), check_empty=False))
+    j = V.arbitrary("j")
+    return both(n_segs(res) - k1 == n, implies(both(0 <= j, j < n), V.struct_eq(seg_at(res, k1 + j), seg_at(src, k0 + j))))
+
+
+def _shift_ens(a, result, callee=False):
+    segs, old = a.segs, a.old.segs
+    k0 = ite(has_shift(old), 1, 0)
+    total = a.amount + ite(has_shift(old), seg_cols(seg_at(old, 0)), 0)   # existing shift + requested shift
+    k1 = ite(total != 0, 1, 0)
+    yield "amount-is-an-int", isinstance(a.amount, (int, V.SInt))
+    yield "columns-grow-by-exactly-the-amount", colsum(result, n_segs(result)) == colsum(old, n_segs(old)) + a.amount
+    yield "one-leading-shift-holding-the-total-shift-or-none-when-zero", implies(total != 0, both(n_segs(result) > 0, V.struct_eq(seg_at(result, 0), (total, None))))
+    yield "every-other-segment-kept-in-order", same_from(result, k1, old, k0, callee)
+    yield "argument-not-modified", same_from(segs, 0, old, 0, callee)
+
+
+@contract(TL + "shift_line", property="C03", replayable=False)
+class shift_line:
+    params = dict(segs=LINE, amount=Union(Int, Const(1.5)))  # 1.5: a representative of "not an int"
+    result = LINE
+    raises = (TypeError,)
+    raises_iff = {TypeError: lambda a: not isinstance(a.amount, (int, V.SInt))}
+    ensures = staticmethod(_shift_ens)
+    ensures_callee = staticmethod(lambda a, result: _shift_ens(a, result, True))
+
+    def on_raise(a, exc):
+        yield "only-for-a-non-int-amount", not isinstance(a.amount, (int, V.SInt))
